@@ -511,7 +511,14 @@ func evalObject(node *jparse.ObjectNode, data reflect.Value, env *environment) (
 			}
 		}
 
-		value, err := eval(node.Pairs[idx.pair][1], items, env)
+		// A group of one item is that item, not a one-item array:
+		// {"a": $ + 1} on 5 is {"a": 6}.
+		context := items
+		if items.Len() == 1 {
+			context = items.Index(0)
+		}
+
+		value, err := eval(node.Pairs[idx.pair][1], context, env)
 		if err != nil {
 			return undefined, err
 		}
